@@ -285,16 +285,38 @@ def check_label_merge(prog, ctx):
                        "_phases": {}, "_blocks": {}, "_indices": ()})
         return o
 
-    universe = [1, 2, 3, 4]
+    lt = prog.lookup_method(opc, "__lt__")
+
+    def lib_sorted(ev, objs):
+        """the objects in the library's own order (R04.1 shows it is a strict total order), by the checker's bubble sort"""
+        objs = list(objs)
+        for i_ in range(len(objs)):
+            for j_ in range(len(objs) - 1 - i_):
+                if ev.truth(ev.call(lt, [objs[j_]], self_obj=objs[j_ + 1])):
+                    objs[j_], objs[j_ + 1] = objs[j_ + 1], objs[j_]
+        return objs
+
+    def operand_lists(maxlen):
+        """label lists an operand can carry: distinct (label, direction) entries with no conjugate pair among them"""
+        out = [()]
+        for k in range(1, maxlen + 1):
+            for labs in itertools.combinations((1, 2, 3), k):
+                for ds in itertools.product((False, True), repeat=k):
+                    out.append(tuple(zip(labs, ds)))
+        return out
+
     cases = []
-    for nl in (0, 1, 2):
-        for nr in (0, 1, 2, 3):
-            for labs in itertools.permutations(universe, nl + nr):
-                l, r = tuple(sorted(labs[:nl])), tuple(sorted(labs[nl:]))
-                cases.append(([(x, False) for x in l], [(x, False) for x in r]))
-    # conjugate pairs across the seam (ket-then-bra and bra-then-ket), with a spectator
-    for first_dual in (False, True):
-        cases.append(([(2, first_dual)], [(2, not first_dual)]))
+    for l in operand_lists(2):
+        for r in operand_lists(3):
+            if any(x in r for x in l):
+                continue  # the same label with the same direction on both sides: the refused case, below
+            cases.append((list(l), list(r)))
+    # all-ket lists over a larger universe (long sorts)
+    for nl in (1, 2):
+        for nr in (2, 3):
+            for labs in itertools.permutations((1, 2, 3, 4, 5), nl + nr):
+                if labs[:nl] == tuple(sorted(labs[:nl])) and labs[nl:] == tuple(sorted(labs[nl:])):
+                    cases.append(([(x, False) for x in labs[:nl]], [(x, False) for x in labs[nl:]]))
     seen = set()
     for l, r in cases:
         key = (tuple(l), tuple(r))
@@ -306,16 +328,11 @@ def check_label_merge(prog, ctx):
         ev.method_stubs = {"phase_global": lambda self_, *a, _f=flips, **k: _f.append(1) or self_}
         left, right = stub(ev, l, len(l) % 2), stub(ev, r, len(r) % 2)
         # operands carry their labels in the library's own order (that is what earlier merges leave behind)
-        lt_ = prog.lookup_method(opc, "__lt__")
         for o_ in (left, right):
-            objs_ = list(o_.fields["_oddpos"])
-            for i_ in range(len(objs_)):
-                for j_ in range(len(objs_) - 1 - i_):
-                    if ev.truth(ev.call(lt_, [objs_[j_]], self_obj=objs_[j_ + 1])):
-                        objs_[j_], objs_[j_ + 1] = objs_[j_ + 1], objs_[j_]
-            o_.fields["_oddpos"] = tuple(objs_)
-        l = [(o.fields["_label"], bool(o.fields["_dual"])) for o in left.fields["_oddpos"]]
-        r = [(o.fields["_label"], bool(o.fields["_dual"])) for o in right.fields["_oddpos"]]
+            o_.fields["_oddpos"] = tuple(lib_sorted(ev, o_.fields["_oddpos"]))
+        lobjs, robjs = list(left.fields["_oddpos"]), list(right.fields["_oddpos"])
+        l = [(o.fields["_label"], bool(o.fields["_dual"])) for o in lobjs]
+        r = [(o.fields["_label"], bool(o.fields["_dual"])) for o in robjs]
         new = stub(ev, [], (len(l) + len(r)) % 2)
         try:
             ev.call(f, [left, right, new])
@@ -328,51 +345,50 @@ def check_label_merge(prog, ctx):
             bad.setdefault("runs", f"left={l} right={r}: {type(e).__name__}: {getattr(e, 'what', e)}")
             continue
         n += 1
-        seq = list(l) + list(r)
-        # reference: bubble the labels into order counting exchanges; a conjugate pair is removed when adjacent
-        sign = -1 if (len(l) % 2 and len(r) % 2) else 1
-        work = list(seq)
-        i = 0
-        while i < len(work) - 1:
-            (la, da), (lb, db) = work[i], work[i + 1]
-            if la == lb and da != db:
-                if db:
+        # reference, from the statement: labels are anticommuting symbols, x.x* contracts to -1 and x*.x to +1.  The list the
+        # library leaves is not canonical (a conjugate pair is only contracted once the sort brings it together, and all bra labels
+        # sort before all ket labels), so what is compared is the *value*: sign x labels, reduced to normal form by the checker's
+        # own contraction of every pair and inversion count.
+        def canon(items):
+            work = list(items)
+            sign = 1
+            while True:
+                pr = next(((p_, q_) for p_ in range(len(work)) for q_ in range(p_ + 1, len(work))
+                           if work[p_][0] == work[q_][0] and work[p_][1] != work[q_][1]), None)
+                if pr is None:
+                    break
+                p_, q_ = pr
+                if (q_ - p_ - 1) % 2:
                     sign = -sign
-                del work[i:i + 2]
-                i = max(0, i - 1)
-            elif (not da and db) or (da == db and ((lb < la) if not da else (lb > la))):
-                # order: non-dual labels ascending first? -> use the library's own comparison through the evaluator below
-                i += 1
-            else:
-                i += 1
-        got_labels = [(o.fields["_label"], bool(o.fields["_dual"])) for o in new.fields["_oddpos"]]
-        # the labels must be sorted w.r.t. the library's order and pair-free; the sign is compared for all-ket lists, where the
-        # reference is simply the parity of the number of inversions
-        lt = prog.lookup_method(opc, "__lt__")
-        objs = list(new.fields["_oddpos"])
-        for a_, b_ in zip(objs, objs[1:]):
+                if work[q_][1]:
+                    sign = -sign  # met ket-then-bra
+                del work[q_]
+                del work[p_]
+            inv = sum(1 for i_ in range(len(work)) for j_ in range(i_ + 1, len(work))
+                      if ev.truth(ev.call(lt, [work[i_][2]], self_obj=work[j_][2])))
+            return sign * (-1) ** inv, sorted((x, d) for (x, d, _) in work)
+
+        cross = -1 if (len(l) % 2 and len(r) % 2) else 1
+        wsign, wlabels = canon([(x, d, o) for (x, d), o in zip(l + r, lobjs + robjs)])
+        wsign *= cross
+        gobjs = list(new.fields["_oddpos"])
+        got_labels = [(o.fields["_label"], bool(o.fields["_dual"])) for o in gobjs]
+        gsign, glabels = canon([(x, d, o) for (x, d), o in zip(got_labels, gobjs)])
+        gsign *= -1 if len(flips) % 2 else 1
+        allket = all(not d for (_, d) in l + r)
+        if glabels != wlabels:
+            bad.setdefault("labels" if allket else "pairs", f"left={l} right={r}: labels on the result {got_labels}, which reduce to {glabels}; "
+                                                            f"expected {wlabels}")
+        elif gsign != wsign:
+            bad.setdefault("sign" if allket else "pairs",
+                           f"left={l} right={r}: result {'-' if len(flips) % 2 else '+'}{got_labels} has the value sign {gsign}, expected {wsign} "
+                           f"(cross-over {'yes' if cross == -1 else 'no'})")
+        for a_, b_ in zip(gobjs, gobjs[1:]):
             if ev.truth(ev.call(lt, [a_], self_obj=b_)):
                 bad.setdefault("sorted", f"left={l} right={r}: the labels left on the result {got_labels} are not sorted")
-        if all(not d for (_, d) in seq):
-            inv = sum(1 for i_ in range(len(seq)) for j_ in range(i_ + 1, len(seq)) if seq[i_][0] > seq[j_][0])
-            want = (-1) ** inv * (-1 if (len(l) % 2 and len(r) % 2) else 1)
-            got = -1 if len(flips) % 2 else 1
-            if sorted(x for x, _ in seq) != [x for x, _ in got_labels]:
-                bad.setdefault("labels", f"left={l} right={r}: labels on the result {got_labels}, expected the sorted merge")
-            if got != want:
-                bad.setdefault("sign", f"left={l} right={r}: global sign {got}, expected {want} ({inv} inversion(s), cross-over "
-                                       f"{'yes' if (len(l) % 2 and len(r) % 2) else 'no'})")
-        else:
-            # one conjugate pair: removed, sign iff it meets ket-then-bra (second one dual)
-            pair_label = 2
-            if any(x == pair_label for x, _ in got_labels):
-                bad.setdefault("pairs", f"left={l} right={r}: the conjugate pair of label {pair_label} is still on the result {got_labels}")
-            second_dual = [d for (x, d) in seq if x == pair_label][1]
-            cross = -1 if (len(l) % 2 and len(r) % 2) else 1
-            want = cross * (-1 if second_dual else 1)
-            got = -1 if len(flips) % 2 else 1
-            if got != want:
-                bad.setdefault("pairs", f"left={l} right={r}: global sign {got}, expected {want} (pair met {'ket-then-bra' if second_dual else 'bra-then-ket'})")
+            if a_.fields["_label"] == b_.fields["_label"]:
+                bad.setdefault("pairs", f"left={l} right={r}: the result {got_labels} still carries an adjacent conjugate pair (a scalar result "
+                                        "would miss its sign)")
     # duplicates with the same direction are refused
     for l, r in (([(1, False)], [(1, False)]), ([(1, False), (2, True)], [(2, True)])):
         ev = evaluator(prog)
@@ -391,8 +407,9 @@ def check_label_merge(prog, ctx):
     ctx.need(n >= 60 or bad, f"R04.8: only {n} label merges evaluated")
     for key, msg in (("runs", "the label merge evaluates on every small case"),
                      ("sorted", "the labels left on the result are sorted in the library's own order"),
-                     ("labels", "the labels left on the result are the sorted merge of both operands' labels"),
+                     ("labels", "all-ket lists: the labels left on the result are the sorted merge of both operands' labels"),
                      ("sign", "the global sign is (-1)^(inversions of the concatenated labels) times the cross-over sign (left odd and right odd count)"),
-                     ("pairs", "a conjugate pair across the seam is removed, with a sign iff it meets ket-then-bra"),
+                     ("pairs", "with conjugate pairs: sign x labels has the value of the concatenation (every pair contracted, -1 iff it meets "
+                               "ket-then-bra once brought together; inversion sign of the rest), and no adjacent conjugate pair is left"),
                      ("duplicates", "a repeated label with the same direction is refused")):
         ctx.check(key not in bad, rid, f, f.node, key, msg + f" ({n} merges)" + ("" if key not in bad else f" — witness: {bad[key]}"))
